@@ -204,6 +204,8 @@ def _splice(caller, b, callee, args, dest, cont, line, ret_wrap=None):
             nb['t'] = m.term(t)
         caller['bbs'].append(nb)
     caller.setdefault('inlined', []).append(callee['id'])
+    # for rules that judge a helper as a unit (e.g. a comparison predicate): where it was spliced and with what
+    caller.setdefault('spliced', []).append({'helper': callee['id'], 'block': b, 'entry': boff, 'args': copy.deepcopy(args), 'dest': copy.deepcopy(dest)})
     if ret_wrap is None and cont is not None:
         _thread_returns(caller, callee, loff, boff, dest, cont, line)
 
@@ -460,6 +462,9 @@ def inline_new_helpers(fx, baseline, log=None):
             _splice(r, i, h, t['a'], t['d'], t.get('t'), t.get('line', 0))
         dropped = False
         if not other_refs and not str(h.get('vis', '')).startswith('Public'):
+            if not hasattr(fx, 'dropped_helpers'):
+                fx.dropped_helpers = {}
+            fx.dropped_helpers[hid] = h
             del fx.fns[hid]
             dropped = True
         report.append((hid, len(sites), dropped))
